@@ -2,11 +2,13 @@
 
 COMMON_ASSUMPTIONS = [
     "schedules and fault plans are sampled (seeded search), not enumerated: a clean batch is evidence, not proof",
-    "engine A executes sequentially consistent interleavings; weak-memory effects are covered only by the "
-    "happens-before monitor over the declared orderings (and by Miri in the thorough tier where listed)",
+    "engine A executes sequentially consistent interleavings plus, in a fraction of the runs, a store-buffer (TSO-like) "
+    "weak-memory mode; other weak-memory effects are covered only by the happens-before monitor over the declared "
+    "orderings (and by Miri in the thorough tier where listed)",
     "rayon and parking_lot are simulated stand-ins with the behaviours argued in DESIGN.md section 2.6; "
     "std::sync::Arc, nucleo-matcher and all of /repo/src are the real code",
-    "the matcher configuration, case matching and normalisation are fixed for the lifetime of a run; append hints are truthful",
+    "the matcher configuration is fixed for the lifetime of a run; case matching and normalisation may change at any "
+    "reparse, and the append hint is only given when it is truthful (same settings, new text extends the old text)",
 ]
 
 MIRI_BOXCAR = dict(name="boxcar", argv=["boxcar", "1", "20"], seeds=32)
